@@ -76,12 +76,29 @@ class Prober:
             self.p.kill()
 
 
-def worker(d, lib_path, pid, nsess, seed, bufsize, barrier, faults):
+def worker(d, lib_path, pid, nsess, seed, bufsize, barrier, faults, fresh=False):
     from molli.storage import Collection, UkvCollectionBackend
     rnd = random.Random(seed)
     emit = Emitter(Path(d), pid)
     prober = Prober(lib_path) if faults else None
+    if fresh:
+        # the library does not exist yet: every worker constructs its handle at the same moment, and a random delay in
+        # front of each acquisition of the write lock spreads the constructors over the first sessions of the others
+        import fasteners
+        cj = random.Random(seed ^ 0xC70)
+        orig_acq = fasteners.InterProcessReaderWriterLock.acquire_write_lock
+        budget = [3]
+
+        def late_acquire(self, *a, **kw):
+            if budget[0] > 0:
+                budget[0] -= 1
+                time.sleep(cj.random() * 0.05)
+            return orig_acq(self, *a, **kw)
+        fasteners.InterProcessReaderWriterLock.acquire_write_lock = late_acquire
+        barrier.wait()
     lib = Collection(lib_path, UkvCollectionBackend, readonly=False, bufsize=bufsize, value_encoder=encoder)
+    if fresh:
+        emit("Make")
     mine = []
     # random delays at the boundaries of the protocol steps (begin / flush / end / lock release) widen the
     # windows in which a mis-ordered step (e.g. lock released before the file is closed) becomes visible
@@ -99,7 +116,8 @@ def worker(d, lib_path, pid, nsess, seed, bufsize, barrier, faults):
         delayed(lib._backend, name)
     for name in ("release_write_lock", "release_read_lock"):
         delayed(lib._backend._lock, name)
-    barrier.wait()
+    if not fresh:
+        barrier.wait()
     TO = 20
     for s in range(nsess):
         time.sleep(rnd.random() * 0.002)
@@ -205,7 +223,7 @@ atexit.unregister(lib._backend.flush)
 '''
 
 
-def run_schedule(workdir: Path, nproc, nsess, seed, faults=True, timeout=300):
+def run_schedule(workdir: Path, nproc, nsess, seed, faults=True, timeout=300, fresh=False):
     """-> merged event list (ordered by seq) incl. the Final event from a fresh process."""
     from molli.storage import Collection, UkvCollectionBackend
     d = Path(workdir)
@@ -220,13 +238,14 @@ def run_schedule(workdir: Path, nproc, nsess, seed, faults=True, timeout=300):
     spellings = [d / "real" / "lib.ukv", d / "alias" / "lib.ukv", d / "real" / ".." / "real" / "lib.ukv"]
     ctx = mp.get_context("fork")
     # the library is created by a child so that this process never holds the lock
-    p0 = ctx.Process(target=_create, args=(str(lib_path),))
-    p0.start(); p0.join(60)
+    if not fresh:
+        p0 = ctx.Process(target=_create, args=(str(lib_path),))
+        p0.start(); p0.join(60)
     barrier = ctx.Barrier(nproc)
     procs = []
     for i in range(nproc):
         buf = -1 if i % 2 == 0 else 100000
-        p = ctx.Process(target=worker, args=(str(d), str(spellings[i % 3]), f"p{i}", nsess, seed * 1000 + i, buf, barrier, faults))
+        p = ctx.Process(target=worker, args=(str(d), str(spellings[i % 3]), f"p{i}", nsess, seed * 1000 + i, buf, barrier, faults, fresh))
         p.start(); procs.append(p)
     t0 = time.time()
     hung = False
